@@ -428,3 +428,6 @@ def run(ctx):
     _b.check_predicates(ctx, 'C08.RP', 'C08')
     from .. import boundaries as _b
     _b.check_updates(ctx, 'C08.RU', 'C08')
+    from .. import hpackrules as _hp
+    r12 = ctx.rule('C08.R12', 'GUARD', 'no peer-chosen HPACK index reaches the unreachable!() of get_static: Table::get rejects index 0 and calls get_static only for 1 <= index <= 61; size updates stay within the allowance (= C11.R4 limits)')
+    _hp.decoder_limits(r12, ctx.facts)
